@@ -105,6 +105,12 @@ package proto
 //@ -- block's row count": each loop iteration leaves ITS target at exactly b.Rows rows (reset first,
 //@ -- then decoded) - by induction over the loop that is every target; the quantified statement over
 //@ -- all targets is not expressible over a slice of interface values in this verifier.
+//@ -- type compatibility is a function of the two type strings (the string algebra itself is C19's
+//@ -- subject and is not verified here)
+//@ spec func typeConflicts(a Bytes, an Int, b Bytes, bn Int) Bool
+//@ assume contract (c ColumnType) Conflicts(b) (r)
+//@   ensures r == typeConflicts(arrayof(c), len(c), arrayof(b), len(b))
+
 //@ -- a bound target always carries a column (a nil Data is caller misuse, not hostile input)
 //@ valid (c ResultColumn): c.Data != nil
 //@ contract (s Results) DecodeResult(r, version, b) (err) props(C06,C07,C16,C18)
@@ -112,6 +118,17 @@ package proto
 //@   modifies all(s), r.pos, r.failed, r.b.Buf
 //@   ensures b.Columns != len(s) && !(len(s) == 0 && b.Rows == 0) ==> err != nil [C18] {column-count-mismatch-is-an-error}
 //@   ensures err == nil ==> r.failed == old(r.failed)
+//@ -- C18: a target is reset, given state and given column data only after the block column's name
+//@ -- was found equal to the target's (possibly just inferred) name and its type was found compatible
+//@ callsite ColResult.Reset
+//@   assert t.Name == columnName [C18] {reset-only-after-the-name-check}
+//@   assert !typeConflicts(arrayof(gotType), len(gotType), arrayof(hasType), len(hasType)) [C18] {reset-only-after-the-type-check}
+//@ callsite ColResult.DecodeColumn
+//@   assert t.Name == columnName [C18] {data-only-into-the-target-of-that-name}
+//@   assert !typeConflicts(arrayof(gotType), len(gotType), arrayof(hasType), len(hasType)) [C18] {data-only-into-a-compatible-target}
+//@   assert b.Rows != 0 [C18] {no-column-data-for-an-empty-block}
+//@ callsite ColumnType).Conflicts
+//@   assert len(s) > 0 {types-are-compared-only-when-targets-exist}
 //@ loop 0 (i)
 //@   modifies all(s), r.pos, r.failed, r.b.Buf
 //@   invariant 0 <= i && i <= b.Columns && (len(s) > 0 ==> b.Columns == len(s))
